@@ -11,6 +11,7 @@ import (
 	"strconv"
 	"testing"
 
+	"github.com/llir/llvm/ir"
 	"github.com/llir/llvm/ir/types"
 )
 
@@ -168,6 +169,49 @@ func TestVerifC16Asm(t *testing.T) {
 				fail("types %s and %s: same=%v before printing, Equal=%v after parsing them back", universe[i], universe[j], verifC16Same(universe[i], universe[j]), parsed[i].Equal(parsed[j]))
 			}
 		}
+	}
+	// identified structs are identified by name: distinct names stay distinct through print and parse, and
+	// pointers to them compare as the names do
+	{
+		cases++
+		names := []string{"foo", "%foo", "a b", "x.1", "007", "-1", "\"q\""}
+		m := ir.NewModule()
+		var sts []types.Type
+		for i, n := range names {
+			sts = append(sts, m.NewTypeDef(n, types.NewStruct(types.NewInt(uint64(8+i)))))
+		}
+		func() {
+			defer func() {
+				if e := recover(); e != nil {
+					fail("named structs: panic %v", e)
+				}
+			}()
+			text := m.String()
+			m2, err := ParseString("n.ll", text)
+			if err != nil {
+				fail("named structs %q: the printed module does not parse: %v\n%s", names, err, text)
+				return
+			}
+			got := map[string]types.Type{}
+			for _, td := range m2.TypeDefs {
+				got[td.Name()] = td
+			}
+			for i, n := range names {
+				back, ok := got[n]
+				if !ok {
+					fail("named struct %q is not read back under its name (printed module:\n%s)", n, text)
+					continue
+				}
+				if !sts[i].Equal(back) || !types.NewPointer(sts[i]).Equal(types.NewPointer(back)) {
+					fail("named struct %q: Equal(t, parse(print(t))) is false", n)
+				}
+				for j := range names {
+					if i != j && types.NewPointer(sts[i]).Equal(types.NewPointer(sts[j])) {
+						fail("pointers to the distinct named structs %q and %q compare equal", n, names[j])
+					}
+				}
+			}
+		}()
 	}
 	fmt.Printf("REPLAY-SAMPLE %d types, e.g. %s\n", len(universe), universe[len(universe)/2])
 	fmt.Printf("REPLAY-CASES %d\n", cases)
